@@ -118,24 +118,44 @@ Print Assumptions C12_reassembly_delivers_fresh.
 (* ---------------- back to back ---------------- *)
 
 (* For every sequence of datagrams queued on any sockets, ingress-triggered replies and polls
-   with any device budgets (back-pressure), from a fresh interface: the fragments on the wire
-   are, in order, complete correct trains -- each reassembling to exactly one of the datagrams
-   handed to the stack -- followed by the part already sent of the train in progress; and that
-   part followed by what the fragmenter will still send, one fragment per egress step, is again
-   a complete correct train of a submitted datagram.  Fragments of different datagrams are never
-   interleaved, overwritten or dropped mid-train. *)
+   with any device budgets (back-pressure), from a fresh interface, each datagram carrying the
+   link-layer address resolved for its next hop when dispatch_ip admitted it: the fragment
+   frames on the wire are, in order, complete correct trains -- each reassembling to exactly one
+   of the datagrams handed to the stack, EVERY FRAME OF A TRAIN ADDRESSED TO THAT DATAGRAM'S
+   LINK-LAYER ADDRESS -- followed by the part already sent of the train in progress; the
+   address stored in the fragmenter is that datagram's; and that part followed by what the
+   fragmenter will still send, one fragment per egress step, is again a complete correct train.
+   Fragments of different datagrams are never interleaved, overwritten, misdirected or dropped
+   mid-train. *)
 Theorem C12_back_to_back_not_mixed : forall ip_mtu bufsize id0 nsocks ops,
   f4_hdr + 8 <= ip_mtu ->
   let '(st, out) := eg_run ip_mtu (eg_init bufsize id0 nsocks) ops in
   exists done cur,
-    filter p_is_fragment out = concat done ++ cur /\
-    Forall (fun t => exists ident P, In P (ops_payloads ops) /\ train_ok ip_mtu ident 0 t P) done /\
+    filter frame_is_fragment out = concat done ++ cur /\
+    Forall (fun t => exists ident d, In d (ops_payloads ops) /\
+                       ltrain_ok ip_mtu ident (fst d) 0 t (snd d)) done /\
     ((fr_finished (eg_fr st) = true /\ cur = []) \/
-     (exists P, In P (ops_payloads ops) /\ fr_finished (eg_fr st) = false /\
-        forall fuel, (length P <= fuel)%nat ->
-          train_ok ip_mtu (fr_ident (eg_fr st)) 0 (cur ++ f4_drain fuel ip_mtu (eg_fr st)) P)).
+     (exists d, In d (ops_payloads ops) /\ fr_finished (eg_fr st) = false /\
+        eg_hw st = fst d /\ Forall (fun f => fst f = fst d) cur /\
+        forall fuel, (length (snd d) <= fuel)%nat ->
+          train_ok ip_mtu (fr_ident (eg_fr st)) 0
+                   (map snd cur ++ f4_drain fuel ip_mtu (eg_fr st)) (snd d))).
 Proof. exact c12_back_to_back. Qed.
 Print Assumptions C12_back_to_back_not_mixed.
+
+(* A packet that dispatch_ip drops (fragmentation buffer too small, fragmenter busy) or emits
+   whole changes NOTHING in the fragmenter -- buffer, counters, ident and the stored link-layer
+   address; only starting a train stores the address resolved for that datagram, and a train is
+   never started while fragments are unsent.  Whatever dispatch_ip emits itself goes to the
+   address resolved for the packet. *)
+Theorem C12_dropped_packet_changes_nothing : forall ip_mtu ident fr hwst d,
+  let '(fr', hw', out, r) := eg_dispatch_ip ip_mtu ident fr hwst d in
+  Forall (fun f => fst f = fst d) out /\
+  (r <> DipFragStarted -> fr' = fr /\ hw' = hwst) /\
+  (r = DipFragStarted -> hw' = fst d) /\
+  (fr_finished fr = false -> r <> DipFragStarted).
+Proof. exact dispatch_ip_hw. Qed.
+Print Assumptions C12_dropped_packet_changes_nothing.
 
 (* what a correct train is, spelled out *)
 Theorem C12_train_ok_means : forall ip_mtu ident frs off data,
@@ -166,9 +186,9 @@ Print Assumptions C12_busy_fragmenter_not_overwritten.
    train on an idle fragmenter, or because it can never fit the fragmentation buffer: a busy
    fragmenter never makes a socket lose a datagram (it stays queued). *)
 Theorem C12_socket_datagram_kept_while_busy : forall ip_mtu B,
-  f4_hdr + 8 <= ip_mtu -> forall socks fr id b,
+  f4_hdr + 8 <= ip_mtu -> forall socks fr hwst id b,
   zlen (fr_buffer fr) = B ->
-  let '(fr', _, _, socks', out, _) := eg_socket_egress ip_mtu fr id b socks in
+  let '(fr', _, _, _, socks', out, _) := eg_socket_egress ip_mtu fr hwst id b socks in
   zlen (fr_buffer fr') = B /\ Forall2 (dequeued_ok ip_mtu B out) socks socks'.
 Proof. exact socket_egress_conserves. Qed.
 Print Assumptions C12_socket_datagram_kept_while_busy.
@@ -178,7 +198,7 @@ Print Assumptions C12_socket_datagram_kept_while_busy.
 Theorem C12_pending_fragment_first : forall ip_mtu st b P off,
   f4_hdr + 8 <= ip_mtu -> fr_progress (eg_fr st) P off -> bud_has b = true ->
   let '(_, _, out, _) := eg_poll_egress ip_mtu st b in
-  exists rest, out = snd (f4_dispatch_ipv4_frag ip_mtu (eg_fr st)) :: rest.
+  exists rest, out = (eg_hw st, snd (f4_dispatch_ipv4_frag ip_mtu (eg_fr st))) :: rest.
 Proof. exact poll_egress_pending_first. Qed.
 Print Assumptions C12_pending_fragment_first.
 
@@ -194,12 +214,24 @@ Print Assumptions C12_example_three_fragments.
 
 (* the scenario of defect D8 on the repaired code: two such datagrams queued back to back *)
 Theorem C12_example_two_datagrams_back_to_back :
-  map (fun p => (p_ident p, p_offset p, p_mf p, zlen (p_payload p), hd 0 (p_payload p)))
+  map (fun f => (fst f, p_ident (snd f), p_offset (snd f), p_mf (snd f), zlen (p_payload (snd f)),
+                 hd 0 (p_payload (snd f))))
       (snd (eg_run 576 (eg_init cfg_FRAGMENTATION_BUFFER_SIZE 7 1) c12_d8_ops)) =
-  [(7, 0, true, 552, 17); (7, 552, true, 552, 17); (7, 1104, false, 104, 17);
-   (8, 0, true, 552, 34); (8, 552, true, 552, 34); (8, 1104, false, 104, 34)].
+  [(1, 7, 0, true, 552, 17); (1, 7, 552, true, 552, 17); (1, 7, 1104, false, 104, 17);
+   (1, 8, 0, true, 552, 34); (1, 8, 552, true, 552, 34); (1, 8, 1104, false, 104, 34)].
 Proof. exact c12_d8_example. Qed.
 Print Assumptions C12_example_two_datagrams_back_to_back.
+
+(* Ethernet, MTU 576: a datagram to neighbour 1 mid-fragmentation under back-pressure (one frame
+   per poll); an oversized reply towards neighbour 2 arrives and is dropped as a whole: the
+   remaining fragments of the first datagram still go to neighbour 1 *)
+Theorem C12_example_two_neighbours :
+  map (fun f => (fst f, p_ident (snd f), p_offset (snd f), p_mf (snd f), zlen (p_payload (snd f)),
+                 hd 0 (p_payload (snd f))))
+      (snd (eg_run 562 (eg_init cfg_FRAGMENTATION_BUFFER_SIZE 7 1) c12_two_neighbours_ops)) =
+  [(1, 7, 0, true, 536, 17); (1, 7, 536, true, 536, 17); (1, 7, 1072, false, 336, 17)].
+Proof. exact c12_two_neighbours_example. Qed.
+Print Assumptions C12_example_two_neighbours.
 
 (* a permuted arrival with a duplicate (last, first, first, middle) of the sender's fragments *)
 Theorem C12_example_permuted_duplicate :
